@@ -28,7 +28,7 @@ use std::io::Write;
 fn header(prop: &str) -> &'static str {
     match prop {
         "C17" => "From TSG Require Import Model.ContainerOps.\n",
-        "C01" | "LAZY" | "C09" | "C11" | "C15" | "C20" | "C02" | "C08" | "C03" | "C04" | "C05x" => "From TSG Require Import Model.Run.\n",
+        "C01" | "LAZY" | "C09" | "C11" | "C15" | "C20" | "C02" | "C08" | "C03" | "C04" | "C05x" => "From TSG Require Import Model.Run Model.IdxBridge.\n",
         "C18" => "From TSG Require Import Model.ParseErr.\n",
         "C16" => "From TSG Require Import Model.Globals.\n",
         "C19" => "From TSG Require Import Model.Cli.\n",
